@@ -15,8 +15,8 @@ T_STRNLEN = 'strnlen (libc, no CBMC model): ASSUMED contract contracts/stubs_lib
 T_CRC = 'crc32_gzip_refl (dispatched NASM symbol): ASSUMED contract contracts/stubs_libc.h (arbitrary value, call recorded; requires len readable bytes is checked)'
 T_MEMCPY = ('memcpy into state->tmp_in_buffer (fixed_size_read) modelled in the harness as typed byte stores into the array member, '
             'asserting the destination range lies inside tmp_in_buffer and n<=10 (built-in model: byte update of the whole 87 KB struct, does not convert)')
-T_CUT = ('HR_CUT lemmas at the entry of each helper inlined in isal_read_gzip_header: asserted first (obligation "lemma: ..."), then restated with '
-         'GHOST_AXIOM as a cut point for the solver (assert-then-assume of the same condition)')
+T_CUT = ('HR_CUT cut points at the entry of each helper inlined in isal_read_gzip_header: LEMMA(c) of verif_common.h '
+         '(asserted as an obligation, then assumed)')
 
 GZW = dict(entry='h_gzip_write_header', enforce='isal_write_gzip_header', replace=['strnlen', 'crc32_gzip_refl'], also=['C05', 'C15', 'C10'],
            replay=('hdr.c', 'gzip_write_header'), trusted=[T_STRNLEN, T_CRC])
@@ -74,6 +74,14 @@ HARNESSES = [
     H('gzip_read_header_name', ['C19'], 'igzip/hdr_read.c', INFL, timeout=1200,
       defines=['HR_FIX_BS=ISAL_GZIP_NAME'], solver='cadical',
       bounds='entry point fixed: block_state == ISAL_GZIP_NAME ; caller buffers and avail_in <= 65536 (instance of the thorough harness gzip_read_header, which is unbounded)', **GZR),
+    # resumed NEW_HDR call with carried bytes (audit mutant D5: running header CRC reset on every NEW_HDR entry)
+    H('gzip_read_header_newhdr_carried', ['C19'], 'igzip/hdr_read.c', INFL, timeout=900,
+      defines=['HR_FIX_BS=ISAL_BLOCK_NEW_HDR', 'HR_FIX_T=3', 'HR_FIX_AIN=4'],
+      bounds='instance: block_state == ISAL_BLOCK_NEW_HDR, 3 bytes carried, 4 more arrive (fixed part still incomplete); caller buffers <= 65536', **GZR),
+    H('gzip_read_header_newhdr_carried9', ['C19'], 'igzip/hdr_read.c', INFL, timeout=900, solver='cadical',
+      defines=['HR_FIX_BS=ISAL_BLOCK_NEW_HDR', 'HR_FIX_T=9'],
+      bounds='instance: block_state == ISAL_BLOCK_NEW_HDR, 9 bytes carried, any chunk (the header is completed or not); caller buffers <= 65536',
+      tier='thorough', **GZR),
     H('gzip_read_header_extra', ['C19'], 'igzip/hdr_read.c', INFL, timeout=1800, tier='thorough',
       defines=['HR_FIX_BS=ISAL_GZIP_EXTRA'], solver='cadical',
       bounds='entry point fixed: block_state == ISAL_GZIP_EXTRA ; caller buffers and avail_in <= 65536 (instance of the thorough harness gzip_read_header, which is unbounded)', **GZR),
